@@ -108,6 +108,18 @@ def make_cases(ctx, rnd):
         if i % 6 == 0:
             c["slowio"] = rnd.choice([50, 300])
         cases.append(c)
+    # several undecodable blocks in flight at once (block checksums of stored blocks): the decoders latch their errors
+    # concurrently
+    for i in range(16 if q else 200):
+        conc = [4, 16, 3][i % 3]
+        nb = rnd.choice([4, 6, 8, 12])
+        stride = 4 + B + 4
+        badblocks = sorted(rnd.sample(range(nb), rnd.randrange(2, min(nb, 6) + 1)))
+        cases.append({"id": len(cases) + 1, "kind": "reader", "input": {"family": "random", "len": nb * B, "seed": 90 + i},
+                      "opts": {"code": 4, "bcs": True, "ccs": True, "level": 0, "conc": 1, "legacy": False, "handler": False},
+                      "cfg": {"conc": conc, "mode": ["read", "writeto"][i % 2], "bufs": [rnd.choice([4096, B, 1000])]},
+                      "ops": [[2, 7 + k * stride + 4 + rnd.randrange(B), rnd.randrange(8)] for k in badblocks],
+                      "seed": ctx.seed * 1000 + 1600 + i, "perturb": rnd.choice([0, 10, 40]), "poison": True})
     # a Reader that served an earlier stream up to exactly its last byte (the end of the stream was never asked for) and
     # was Reset: its pipeline has finished on its own, every buffer went back to the pool exactly once
     for i in range(16 if q else 200):
